@@ -145,12 +145,17 @@ Definition add_last_ada_to_last_output (p : tprop) : result tprop :=
 (* quantity of asset [a] in an output of a transaction spending [used] (build_value / calc_value_size) *)
 Definition out_qty (c : ctx) (used : list N) (a : N) : result N := checked_sum (map (fun u => amount c u a) used).
 
-(* the assets of an output grouped by policy (HashMap<PolicyIndex, HashSet<AssetIndex>>) *)
-Fixpoint group_insert (pol a : N) (gs : list (N * list N)) : list (N * list N) :=
+(* the assets of an output grouped by policy (HashMap<PolicyIndex, HashSet<AssetIndex>>); built like the policy table of
+   IntermediateOutputValue (Calc.iv_add_asset): update the policy's entry in place, or put a new entry in front *)
+Fixpoint group_has (pol : N) (gs : list (N * list N)) : bool :=
+  match gs with [] => false | (k, _) :: t => if pol =? k then true else group_has pol t end.
+Fixpoint group_update (pol a : N) (gs : list (N * list N)) : list (N * list N) :=
   match gs with
-  | [] => [(pol, [a])]
-  | (k, l) :: t => if pol =? k then (k, l ++ [a]) :: t else (k, l) :: group_insert pol a t
+  | [] => []
+  | (k, l) :: t => if pol =? k then (k, a :: l) :: t else (k, l) :: group_update pol a t
   end.
+Definition group_insert (pol a : N) (gs : list (N * list N)) : list (N * list N) :=
+  if group_has pol gs then group_update pol a gs else (pol, [a]) :: gs.
 Definition groups_of (c : ctx) (assets : list N) : list (N * list N) :=
   fold_left (fun gs a => group_insert (ai_policy (asset_of c a)) a gs) assets [].
 
